@@ -85,6 +85,9 @@ pub fn judge_c02(rec: &mut Recorder, c: &HistCase, ex: Exec, _hello: &Value) -> 
         let mut kinds: BTreeSet<String> = BTreeSet::new();
         let mut installs = 0;
         for (si, s) in l.steps.iter().enumerate() {
+            if s.kind == "squat" {
+                continue;
+            }
             if s.kind.starts_with("reseal") {
                 if s.kind == "reseal/done" {
                     rec.class("owner-resealed-the-code-pages-while-faked");
@@ -368,7 +371,7 @@ pub fn judge_c03(rec: &mut Recorder, c: &HistCase, ex: Exec, _hello: &Value) -> 
     // whose fate is not this property's business
     let mut stranded: BTreeSet<u64> = BTreeSet::new();
     for (li, l) in o.lifetimes.iter().enumerate() {
-        let squat: BTreeSet<u64> = l.squat_pages.iter().copied().collect();
+        let mut squat: BTreeSet<u64> = l.squat_pages.iter().copied().collect();
         if !squat.is_empty() {
             rec.class("foreign-code-on-released-trampoline-addresses");
         }
@@ -380,6 +383,14 @@ pub fn judge_c03(rec: &mut Recorder, c: &HistCase, ex: Exec, _hello: &Value) -> 
             rec.class("lifetime-under-a-w^x-policy");
         }
         for (si, s) in l.steps.iter().enumerate() {
+            if s.kind == "squat" && !s.squatted.is_empty() {
+                rec.class("foreign-code-mapped-on-addresses-released-during-the-lifetime");
+                for p in &s.squatted {
+                    own_pages.remove(p);
+                    stranded.remove(p);
+                    squat.insert(*p);
+                }
+            }
             if s.kind.starts_with("install") {
                 named.insert(s.t);
                 for t in &s.tramps {
@@ -402,7 +413,7 @@ pub fn judge_c03(rec: &mut Recorder, c: &HistCase, ex: Exec, _hello: &Value) -> 
                     }
                 }
                 for p in &d.appeared {
-                    if !own_pages.contains(p) {
+                    if !own_pages.contains(p) && !squat.contains(p) {
                         return rec.fail(&sig("unexpected-executable-page"), format!("{at}: executable page {p:#x} appeared that is not a mapping the injector was seen to create ({own_pages:x?}); case {c:?}"));
                     }
                 }
